@@ -4,6 +4,7 @@ import Holpy.C02.ProofsTree
 import Holpy.C02.ProofsCheck
 import Holpy.C02.ProofsTrace
 import Holpy.C02.ProofsCover
+import Holpy.C02.ProofsLevel
 /-
 C02 — helper lemmas that tie the invariants (ProofsCheck, ProofsTrace) to `checkProof` and
 `checkedExtend`.
@@ -24,12 +25,15 @@ theorem Good.mono {R : Rules} {G G' : Seq → Prop} (hG : ∀ s, G s → G' s) {
   obtain ⟨q, hq, hc⟩ := h
   exact ⟨q, hq.mono hG, hc⟩
 
-/-- The invariant at the level of `check_proof`. -/
-theorem checkProof_post {R : Rules} {cfg : Cfg} {fuel : Nat} {prf : List Item} {res : Res}
-    (hco : cfg.computeOnly = false) (h : checkProof R cfg fuel prf = .ok res) :
-    (∀ e ∈ res.trace, Good R (fun g => g ∈ res.gaps) e.th) ∧
-    (∀ (m : Nat) (it : Item) (s : Seq), res.root[m]? = some it → it.th = some s → Good R (fun g => g ∈ res.gaps) s) ∧
-    (∀ s, res.th = some s → Good R (fun g => g ∈ res.gaps) s) := by
+/-- The invariant at the level of `check_proof`, for any configuration: relative to a set `G` that
+contains every statement nobody computed (placeholders, and under `compute_only` the stated
+sequents taken on trust). -/
+theorem checkProof_post_gen {R : Rules} {cfg : Cfg} {fuel : Nat} {prf : List Item} {res : Res}
+    (h : checkProof R cfg fuel prf = .ok res) (G : Seq → Prop)
+    (hG : ∀ e ∈ res.trace, e.computed = none → G e.th) :
+    (∀ e ∈ res.trace, Good R G e.th) ∧
+    (∀ (m : Nat) (it : Item) (s : Seq), res.root[m]? = some it → it.th = some s → Good R G s) ∧
+    (∀ s, res.th = some s → Good R G s) := by
   unfold checkProof at h
   split at h
   · simp at h
@@ -39,8 +43,8 @@ theorem checkProof_post {R : Rules} {cfg : Cfg} {fuel : Nat} {prf : List Item} {
     · rename_i l hl
       simp only [Except.ok.injEq] at h
       subst h
-      have PL := checkList_post (R := R) (G := fun g => g ∈ o.gaps) (checkItem R cfg fuel) []
-        (fun root pos seq out => checkItem_post hco fuel root pos seq out) prf prf 0 o ho
+      have PL := checkList_post (R := R) (G := G) (checkItem R cfg fuel) []
+        (fun root pos seq out => checkItem_post fuel root pos seq out) prf prf 0 o ho
         (by intro k; simp [getItem_singleton])
         (by
           intro q hq
@@ -50,7 +54,7 @@ theorem checkProof_post {R : Rules} {cfg : Cfg} {fuel : Nat} {prf : List Item} {
             | nil => simp at h1; omega
             | cons x pre => cases pre <;> simp at h1
           omega)
-        (fun g hg => hg)
+        hG
       refine ⟨PL.trace, ?_, ?_⟩
       · intro m it s hit hs
         exact PL.items m (Nat.zero_le m) it (by rw [List.nil_append, getItem_singleton]; exact hit) s hs
@@ -59,17 +63,63 @@ theorem checkProof_post {R : Rules} {cfg : Cfg} {fuel : Nat} {prf : List Item} {
           rw [← hl, List.getLast?_eq_getElem?]
         exact PL.items (o.root.length - 1) (Nat.zero_le _) l (by rw [List.nil_append, getItem_singleton]; exact hl') s hs
 
-/-- `checked_extend` only ever appends to the theorem table and to the axiom report. -/
-theorem checkedExtend_prefix (R : List (String × Seq) → Rules) (fuel : Nat) :
+/-- Without `compute_only` the only statements nobody computed are the reported gaps. -/
+theorem uncomputed_are_gaps {R : Rules} {cfg : Cfg} {fuel : Nat} {prf : List Item} {res : Res}
+    (hco : cfg.computeOnly = false) (h : checkProof R cfg fuel prf = .ok res) :
+    ∀ e ∈ res.trace, e.computed = none → e.th ∈ res.gaps := by
+  intro e he hn
+  have ht := checkProof_trok h
+  rcases (ht.1 e he).2.2 hn with hr | hc
+  · rw [ht.2, gapsOf]
+    exact List.mem_map.mpr ⟨e, List.mem_filter.mpr ⟨he, by simp [hr]⟩, rfl⟩
+  · rw [hco] at hc; simp at hc
+
+/-- The invariant at the level of `check_proof` (not `compute_only`). -/
+theorem checkProof_post {R : Rules} {cfg : Cfg} {fuel : Nat} {prf : List Item} {res : Res}
+    (hco : cfg.computeOnly = false) (h : checkProof R cfg fuel prf = .ok res) :
+    (∀ e ∈ res.trace, Good R (fun g => g ∈ res.gaps) e.th) ∧
+    (∀ (m : Nat) (it : Item) (s : Seq), res.root[m]? = some it → it.th = some s → Good R (fun g => g ∈ res.gaps) s) ∧
+    (∀ s, res.th = some s → Good R (fun g => g ∈ res.gaps) s) :=
+  checkProof_post_gen h _ (uncomputed_are_gaps hco h)
+
+/-! ### `checked_extend` -/
+
+theorem lookupThm_upsert_self (name : String) (th : Seq) :
+    ∀ l, lookupThm (upsert name th l) name = some th := by
+  intro l
+  induction l with
+  | nil => simp [upsert, lookupThm]
+  | cons p l ih =>
+    obtain ⟨n, t⟩ := p
+    by_cases h : n = name
+    · simp [upsert, lookupThm, h]
+    · simp [upsert, lookupThm, h, ih]
+
+theorem lookupThm_upsert_ne (name : String) (th : Seq) (other : String) (hne : other ≠ name) :
+    ∀ l, lookupThm (upsert name th l) other = lookupThm l other := by
+  intro l
+  induction l with
+  | nil => simp [upsert, lookupThm, Ne.symm hne]
+  | cons p l ih =>
+    obtain ⟨n, t⟩ := p
+    by_cases h : n = name
+    · subst h
+      have : ¬ n = other := fun e => hne e.symm
+      simp [upsert, lookupThm, this]
+    · by_cases h2 : n = other
+      · subst h2; simp [upsert, lookupThm, h]
+      · simp [upsert, lookupThm, h, h2, ih]
+
+/-- `checked_extend` only ever appends to the axiom report. -/
+theorem checkedExtend_axioms_prefix (R : List (String × Seq) → Rules) (fuel : Nat) :
     ∀ (exts : List Ext) (st st' : ExtState) (err : Option Err),
-      checkedExtend R fuel st exts = (st', err) →
-      st.theorems <+: st'.theorems ∧ st.axioms <+: st'.axioms := by
+      checkedExtend R fuel st exts = (st', err) → st.axioms <+: st'.axioms := by
   intro exts
   induction exts with
   | nil =>
     intro st st' err h
     simp only [checkedExtend, Prod.mk.injEq] at h
-    rw [← h.1]; exact ⟨List.prefix_refl _, List.prefix_refl _⟩
+    rw [← h.1]; exact List.prefix_refl _
   | cons e rest ih =>
     intro st st' err h
     cases e with
@@ -78,17 +128,47 @@ theorem checkedExtend_prefix (R : List (String × Seq) → Rules) (fuel : Nat) :
       cases prf with
       | none =>
         simp only [checkedExtend] at h
-        have := ih _ _ _ h
-        exact ⟨(List.prefix_append _ _).trans this.1, (List.prefix_append _ _).trans this.2⟩
+        exact (List.prefix_append _ _).trans (ih _ _ _ h)
       | some p =>
         simp only [checkedExtend] at h
         split at h
-        · simp only [Prod.mk.injEq] at h; rw [← h.1]; exact ⟨List.prefix_refl _, List.prefix_refl _⟩
+        · simp only [Prod.mk.injEq] at h; rw [← h.1]; exact List.prefix_refl _
         · split at h
-          · simp only [Prod.mk.injEq] at h; rw [← h.1]; exact ⟨List.prefix_refl _, List.prefix_refl _⟩
+          · simp only [Prod.mk.injEq] at h; rw [← h.1]; exact List.prefix_refl _
           · split at h
-            · have := ih _ _ _ h
-              exact ⟨(List.prefix_append _ _).trans this.1, this.2⟩
-            · simp only [Prod.mk.injEq] at h; rw [← h.1]; exact ⟨List.prefix_refl _, List.prefix_refl _⟩
+            · exact ih (ExtState.mk (upsert name th st.theorems) st.axioms) st' err h
+            · simp only [Prod.mk.injEq] at h; rw [← h.1]; exact List.prefix_refl _
+
+/-- Processing `e :: rest` when `e` is installed is processing `rest` from the next state. -/
+theorem checkedExtend_append_ok (R : List (String × Seq) → Rules) (fuel : Nat) :
+    ∀ (pre post : List Ext) (st mid : ExtState),
+      checkedExtend R fuel st pre = (mid, none) →
+      checkedExtend R fuel st (pre ++ post) = checkedExtend R fuel mid post := by
+  intro pre
+  induction pre with
+  | nil =>
+    intro post st mid h
+    simp only [checkedExtend, Prod.mk.injEq] at h
+    rw [← h.1]; rfl
+  | cons e pre ih =>
+    intro post st mid h
+    cases e with
+    | other => simp only [checkedExtend, List.cons_append] at h ⊢; exact ih post _ _ h
+    | «theorem» name th prf =>
+      cases prf with
+      | none => simp only [checkedExtend, List.cons_append] at h ⊢; exact ih post _ _ h
+      | some p =>
+        simp only [checkedExtend, List.cons_append] at h ⊢
+        split at h
+        · simp at h
+        · rename_i res hres
+          split at h
+          · simp at h
+          · rename_i r hr
+            split at h
+            · rename_i hcp
+              simp only [hcp, if_true]
+              exact ih post _ _ h
+            · simp at h
 
 end Holpy.C02
